@@ -260,7 +260,7 @@ def domain_ok(req: dict) -> bool:
     return not bad
 
 
-def run_cases(run: lib.Run, audit: dict, scale: int = 1):
+def run_cases(run: lib.Run, audit: dict, scale: int = 1, extras: bool = True):
     quick = run.tier == "quick"
     consts = audit["facts"]["consts"]
     r = random.Random(run.seed * 6151 + 6)
@@ -284,7 +284,7 @@ def run_cases(run: lib.Run, audit: dict, scale: int = 1):
             run.count("outside-domain")
             continue
         cases.append((doc, req, {"strict": r.random() < 0.35}))
-    if scale == 1:
+    if extras:
         for doc, req, cfg in grid_cases(quick):
             if not schema_ok(doc):
                 run.count("grid:schema-rejected")
@@ -311,7 +311,7 @@ def run_cases(run: lib.Run, audit: dict, scale: int = 1):
         except Exception as e:  # noqa: BLE001
             run.spec_failures.append({"policy": doc, "request": req, "cfg": cfg, "impl": {"raised": type(e).__name__},
                                       "spec": f"a cache-enabled engine raised {type(e).__name__} on a schema-valid policy and a JSON-valued request"})
-    if scale == 1:
+    if extras:
         surrogate_probes(run)
     res = gc.run_batch(cases, consts, with_impl_spec=False)
     wf_cmds = [{"cmd": "wellformed", "policy": proto.enc(pol), "consts": {}, "oracle": {}} for pol, _, _ in cases]
@@ -351,7 +351,7 @@ def check(run: lib.Run, audit: dict) -> int:
     run_cases(run, audit, scale=run.boost)
     violations = []
     if run.disagreements and not run.spec_failures:
-        run_cases(run, audit, scale=4)
+        run_cases(run, audit, scale=4, extras=False)
     if run.spec_failures:
         path = run.write_replay("spec", {"what": "C06 violated on the real engine", "case": run.spec_failures[0], "count": len(run.spec_failures)})
         violations.append((path, True))
